@@ -30,7 +30,8 @@ ASSUMPTIONS = ['silence only has to end the provider where ARTIM is armed (Sta2,
                'kill() = DULServiceProvider.kill(); Association.kill is covered in the P2 part']
 
 _CORPUS = None
-NAMES = ['A1_echo', 'A2_store', 'A3_pipelined', 'A4_abort_mid', 'A5_refused', 'A6_unknown_type',
+NAMES = ['A1_echo', 'A2_store', 'A3_pipelined', 'A4_abort_mid', 'A5_refused', 'A19_rq_v2_refused',
+         'A6_unknown_type',
          'A7_user_releases', 'A8_user_aborts', 'A9_collision', 'A12_rq_echo_rel_one_turn',
          'R1_echo', 'R2_reject', 'R3_find', 'R4_collision', 'R5_ac_then_abort', 'R6_peer_releases']
 
@@ -77,7 +78,8 @@ def cases(tier, seed):
         for k in range(8):
             yield dict(convo=name, cut=None, ending='rst', kill=None, rst_at_send=k, seed=seed)
         if corp[name]['role'] == 'requestor':
-            for f in ('refused', 'timeout'):
+            for f in ('refused', 'timeout', 'netunreach', 'hostunreach', 'addrnotavail',
+                      'gaierror', 'emfile'):
                 yield dict(convo=name, cut=None, ending='silence', kill=None, connect=f, seed=seed)
         nsteps = len(corp[name]['steps'])
         for k in range(nsteps + 1):
